@@ -141,6 +141,13 @@ func c01probes() []c01probe {
 	add("C01-map-key-bool-or-float-gen-fails", pdesign(nil, nil, &m.Method{Name: "m",
 		Payload: rt.Obj(rt.Fld("flags", &m.Attr{Type: &m.Type{Kind: m.Map, Key: m.Prim(m.Boolean), Val: m.Prim(m.Int64)}}, false)),
 		HTTP:    &m.HTTPEndpoint{Routes: route("POST", "/m")}}))
+	{
+		a := m.Prim(m.String)
+		a.V = &m.Validation{MinLen: intp(2)}
+		add("C01-body-attr-recursive-validated-user-type", pdesign(
+			[]*m.UserType{{Name: "Tree", Var: "v1", Attr: rt.Obj(rt.Fld("a", a, true), rt.Fld("lang", m.UserRef("Tree"), false))}}, nil,
+			&m.Method{Name: "m", Payload: rt.Obj(rt.Fld("opts", m.UserRef("Tree"), false)), HTTP: &m.HTTPEndpoint{Routes: route("POST", "/m"), Body: &m.Body{Mode: "attr", Attr: "opts"}}}))
+	}
 	// gRPC
 	{
 		health := &m.Service{Name: "health", HasHTTP: true, Methods: []*m.Method{{Name: "ping", HTTP: &m.HTTPEndpoint{Routes: route("GET", "/ping")}}}}
